@@ -197,10 +197,10 @@ class Check(object):
                   json.dumps(self.queries), self.solver_s, cov.get("inconclusive_total", len(self.inconclusive)),
                   sum(self.known_hits.values()), len(self.violations), len(self.harness_errors), wall))
         sys.stdout.flush()
-        if self.harness_errors:
+        if self.violations:
+            code = EXIT_VIOLATION      # every listed violation was reproduced against the real code
+        elif self.harness_errors:
             code = EXIT_HARNESS
-        elif self.violations:
-            code = EXIT_VIOLATION
         else:
             code = EXIT_OK
         os._exit(code)   # skip interpreter teardown (pyboolector objects are sensitive to destruction order)
